@@ -22,10 +22,12 @@ EXTENDS Naturals, Sequences, FiniteSets, TLC
 CONSTANTS Writers, MaxOps, Dev, Packer        \* Packer \in {"msgpack", "json"}
 
 \* ---------------- descriptor universe (model ids) ----------------
-\* A, A2 share a NAME; A, Acol share an IDENTIFIER (name + 32-bit hash); H holds nested records.
-Descs == {"A", "A2", "Acol", "B", "H"}
-Ident(d) == CASE d = "A" -> "iA" [] d = "Acol" -> "iA" [] d = "A2" -> "iA2" [] d = "B" -> "iB" [] d = "H" -> "iH"
-Name(d)  == CASE d \in {"A", "A2", "Acol"} -> "nA" [] d = "B" -> "nB" [] d = "H" -> "nH"
+\* A, A2 share a NAME; A, Acol share an IDENTIFIER (name + 32-bit hash); H holds nested records;
+\* Z has NO fields (a marker record); U has A's fields and a name that differs from A's only in "/" vs "_"
+\* (the record CLASS name of both is the same -- descriptors are told apart by name + fields, never by class name).
+Descs == {"A", "A2", "Acol", "B", "H", "Z", "U"}
+Ident(d) == CASE d = "A" -> "iA" [] d = "Acol" -> "iA" [] d = "A2" -> "iA2" [] d = "B" -> "iB" [] d = "H" -> "iH" [] d = "Z" -> "iZ" [] d = "U" -> "iU"
+Name(d)  == CASE d \in {"A", "A2", "Acol"} -> "nA" [] d = "B" -> "nB" [] d = "H" -> "nH" [] d = "Z" -> "nZ" [] d = "U" -> "nU"
 Keys == {Ident(d) : d \in Descs} \cup {Name(d) : d \in Descs}
 None == "none"
 
@@ -36,9 +38,11 @@ None == "none"
 Leaf(d) == [kind |-> "rec", d |-> d, kids |-> <<>>, bad |-> FALSE]
 BadLeaf(d) == [kind |-> "rec", d |-> d, kids |-> <<>>, bad |-> TRUE]
 Hold(ks) == [kind |-> "rec", d |-> "H", kids |-> ks, bad |-> FALSE]
+CoreLeaves == {Leaf(d) : d \in {"A", "A2", "Acol", "B"}}
 Leaves == {Leaf(d) : d \in Descs \ {"H"}}
 BadLeaves == {BadLeaf(d) : d \in {"A", "Acol", "B"}}
-Holders == {Hold(ks) : ks \in {<<>>} \cup {<<a>> : a \in Leaves} \cup {<<a, b>> : a \in Leaves, b \in Leaves}}
+Holders == {Hold(ks) : ks \in {<<>>} \cup {<<a>> : a \in Leaves} \cup {<<a, b>> : a \in CoreLeaves, b \in CoreLeaves}
+                                  \cup {<<Leaf("U"), Leaf("A")>>, <<Leaf("A"), Leaf("U")>>, <<Leaf("Z"), Leaf("Z")>>, <<Leaf("Z"), Leaf("B")>>}}
 Plain == Leaves \cup Holders
 Groups == {[kind |-> "grp", d |-> "G", kids |-> <<a, b>>, bad |-> FALSE] :
               a \in Leaves, b \in {Leaf("B"), Leaf("A2"), Hold(<<Leaf("A2")>>)}}
@@ -46,7 +50,7 @@ Recs == IF Packer = "json" THEN Plain ELSE Plain \cup Groups
 \* values whose write fails part-way (binary packer only; the JSON packer escapes such text)
 FailRecs == IF Packer = "json" THEN {}
             ELSE BadLeaves \cup {Hold(<<x>>) : x \in BadLeaves}
-                           \cup {Hold(<<a, x>>) : a \in Leaves, x \in BadLeaves} \cup {Hold(<<x, a>>) : a \in Leaves, x \in BadLeaves}
+                           \cup {Hold(<<a, x>>) : a \in CoreLeaves, x \in BadLeaves} \cup {Hold(<<x, a>>) : a \in CoreLeaves, x \in BadLeaves}
 
 \* descriptors a value needs, as a set
 RECURSIVE Needs(_)
